@@ -24,6 +24,7 @@ def run(ctx):
         ctx.guard("C16", "rle", lambda: tail.rle_write_census(ctx, prog))
         ctx.guard("C16", "tail-c", lambda: tail.compress_expand(ctx, prog))
         ctx.guard("C16", "tail-n", lambda: tail.normalize_in_place(ctx, prog))
+        ctx.guard("C16", "full-eq", lambda: eqord.full_eq(ctx, prog))
         ctx.guard("C16", "summaries", lambda: summary.check(ctx, prog, 'core::cmp::|core::hash::Hash|::cmp_by_block_size|block_size::cmp', floor=2))
         ctx.guard("C16", "path summaries", lambda: summary.check_paths(ctx, prog, 'core::cmp::|core::hash::Hash|::cmp_by_block_size|block_size::cmp', floor=2))
         if c in ("dbg", "unsafe_dbg", "strict_dbg"):
